@@ -698,11 +698,11 @@ func confirmViolations(d *Driver, viols []Violation) {
 				obs any
 			}{ok, obs}
 		}
-		if !ok && v.Replay.Alt != nil && v.Replay.Judge.Note != "race" {
-			res, rerr := runRunner(useBin, v.Replay.Alt.Steps, 120*time.Second, 8<<20)
-			if ok2, obs2 := judge(v.Replay.Alt.Judge, res, rerr); ok2 {
+		for alt := v.Replay.Alt; !ok && alt != nil && v.Replay.Judge.Note != "race"; alt = alt.Alt {
+			res, rerr := runRunner(useBin, alt.Steps, 120*time.Second, 8<<20)
+			if ok2, obs2 := judge(alt.Judge, res, rerr); ok2 {
 				ok, obs = ok2, obs2
-				v.Replay = v.Replay.Alt
+				v.Replay = alt
 			}
 		}
 		v.Observed = obs
@@ -845,6 +845,32 @@ func inflate(v any, n int) any {
 		out := make([]any, 0, n)
 		for i := 0; i < n || i < len(x); i++ {
 			out = append(out, inflate(x[i%len(x)], n))
+		}
+		return out
+	}
+	return v
+}
+
+// inflateText: the same message value with every text lengthened to n bytes (repeating its bytes, 'x' when empty):
+// fixed-width fields cut it again, length-prefixed ones make the encoding large.
+func inflateText(v any, n int) any {
+	switch x := v.(type) {
+	case map[string]any:
+		if h, ok := x["$hex"].(string); ok && len(x) == 1 {
+			if h == "" {
+				h = "78"
+			}
+			return map[string]any{"$hex": strings.Repeat(h, 2*n/len(h)+1)[:2*n]}
+		}
+		out := map[string]any{}
+		for k, e := range x {
+			out[k] = inflateText(e, n)
+		}
+		return out
+	case []any:
+		out := make([]any, 0, len(x))
+		for _, e := range x {
+			out = append(out, inflateText(e, n))
 		}
 		return out
 	}
